@@ -33,7 +33,9 @@ WORKERS = {"quick": 8, "thorough": 16}
 BUDGET_S = {"quick": 40, "thorough": 650}
 RULE = (
     "Hypothesis RuleBasedStateMachine (<= 15 steps; the executed trace is the case) over a scratch "
-    "workspace of <= 5 live files and one State. Mutations: write_in_place, atomic_replace (new "
+    "workspace of <= 5 live regular files plus two symlinks to regular files (target inside / outside "
+    "the workspace; link_target_write rewrites the target in place or by replace with the clock on "
+    "the target, link_retarget points the link at another file) and one State. Mutations: write_in_place, atomic_replace (new "
     "inode), touch, delete, recreate, chmod, each followed by a harness clock step (os.utime; drawn "
     "delta >= 1 us forwards/backwards, or the pre-mutation mtime, or an earlier mtime of the path; "
     "re-stepped until the (inode, mtime, size) triple seen through fs.info was never held by that "
@@ -63,7 +65,8 @@ RULE = (
 )
 ASSUMPTIONS = [
     "premise enforced by the harness: after every content mutation the (inode, mtime, size) triple "
-    "of the path, as fs.info reports it, differs from every triple that path held before",
+    "of the file whose bytes are hashed (for a symlink: its target), as fs.info reports it, differs "
+    "from every triple that file held before; link targets are never deleted (no broken links)",
     "caller-supplied stat info is always read at the instant of the call (never older)",
     "no mutation happens between a library call's stat of a file and the end of its read of that "
     "file; a mutation during a batch call hits only a file that call has finished reading, and the "
@@ -78,11 +81,17 @@ ALGOS = ["md5", "md5-dos2unix", "sha256"]
 SLOTS = ["a", "b", "sub/c", "sub/sp ace", "Ünï"]
 INITIAL = {"a": "p:A", "b": "p:crlf", "sub/c": "h:610d0a62"}
 NEVER = ["never-1", "sub/never-2", "never-3"]
+# always present: a regular file that only serves as a link target inside the workspace, and two
+# symlinks to regular files (initially: one target inside the workspace, one outside it)
+EXTRA = ["sub/t-in", "lnk-in", "sub/lnk-out"]
+LINKS = ["lnk-in", "sub/lnk-out"]
+TARGETS = {"sub/t-in": "p:A", "@out/t-out": "p:B", "@out/t-out2": "h:41414142"}
 N_PAD = 2600
 BOGUS = "0badc0de" * 4
 BIG = (998, 999, 1000, 1001, 2500)
 
 slot_s = st.integers(0, 19)
+qslot_s = st.one_of(st.integers(0, 19), st.integers(0, 19), st.integers(20, 25))  # >= 20: EXTRA entries
 algo_s = st.sampled_from([0, 0, 1, 2])
 # same-size group (4 bytes, one of them CRLF text so md5 != md5-dos2unix) + sizes that differ
 content_s = st.one_of(
@@ -110,7 +119,8 @@ clock_s = st.one_of(
 # one drawn route ("probe"), so that every route gets to be the first one to see the changed file
 prime_s = st.sampled_from([None, None, 0, 0, 1, 2])
 probe_s = st.sampled_from([None, None, None, "get", "get+info", "many", "many+infos", "hash_file",
-                           "hash_file+info", "get_hashes", "build_file", "build_entries", "index"])
+                           "hash_file+info", "get_hashes", "get_hashes+walk", "build_file",
+                           "build_dir", "build_entries", "index"])
 size_s = st.sampled_from([0, 1, 2, 2, 3, 5, 5, 8, 8, 8, 8, 8, 8, 8, 8, 998, 999, 1000, 1001, 2500])
 pos_s = st.lists(
     st.one_of(st.sampled_from([0, 1, 997, 998, 999, 1000, 1001, 1997, 1998, 1999, 2497, 2499]),
@@ -237,6 +247,14 @@ class C13Machine(TraceMachine):
             with open(p, "xb") as f:
                 f.write(gen.content_bytes(c))
             self.clock(p, ["d", 0], T0_NS + i * 1_000_000_000 + 500_000_000)
+        os.mkdir(os.path.join(self.dir, "out"))
+        for i, (t, c) in enumerate(sorted(TARGETS.items())):
+            p = self.target_path(t)
+            with open(p, "xb") as f:
+                f.write(gen.content_bytes(c))
+            self.clock(p, ["d", 0], T0_NS + (10 + i) * 1_000_000_000 + 500_000_000)
+        os.symlink(os.path.join("sub", "t-in"), self.p("lnk-in"))          # relative, inside
+        os.symlink(self.target_path("@out/t-out"), self.p("sub/lnk-out"))  # absolute, outside
         # the index a caller kept from an earlier session (hashes of the initial files)
         from dvc_data.index.build import build as ibuild
         from dvc_data.index.save import md5 as imd5
@@ -265,7 +283,17 @@ class C13Machine(TraceMachine):
         return self.p(pop[slot % len(pop)]) if pop else None
 
     def live_files(self):
-        return [self.p(s) for s in SLOTS if os.path.isfile(self.p(s))]
+        """Every file entry of the workspace (regular files and symlinks to regular files)."""
+        return [self.p(s) for s in SLOTS + EXTRA if os.path.isfile(self.p(s))]
+
+    def qpath(self, slot):
+        """Path for a single-path query: a live slot file, or (slot >= 20) one of the EXTRA entries."""
+        if slot >= 20:
+            return self.p(EXTRA[(slot - 20) % len(EXTRA)])
+        return self.existing(slot)
+
+    def target_path(self, t):
+        return os.path.join(self.dir, "out", t[5:]) if t.startswith("@out/") else self.p(t)
 
     def triple(self, p):
         """(inode, mtime, size) exactly as the library reads it."""
@@ -274,7 +302,8 @@ class C13Machine(TraceMachine):
 
     def clock(self, p, spec, prev_ns):
         """Harness clock step after a mutation of p; returns the fresh triple."""
-        hist = self.hist.setdefault(p, [])
+        real = os.path.realpath(p)   # the file whose bytes are hashed (p may be a symlink)
+        hist = self.hist.setdefault(real, [])
         base = prev_ns if prev_ns is not None else (hist[-1] if hist else T0_NS)
         if spec[0] == "d":
             ns = base + spec[1] * 1000
@@ -285,7 +314,7 @@ class C13Machine(TraceMachine):
             ns = hist[spec[1] % len(hist)] if hist else base
             self.labels.add("clock:earlier-mtime")
         ns = max(ns, 10**15)
-        seen = self.seen.setdefault(p, set())
+        seen = self.seen.setdefault(real, set())
         for _ in range(200_000):
             os.utime(p, ns=(ns, ns))
             t = self.triple(p)
@@ -302,6 +331,9 @@ class C13Machine(TraceMachine):
 
     def after_mutation(self, p, before, after, content_changed=True):
         self.mutated.add(p)
+        for ln in LINKS:  # a link shows the change of its target
+            if os.path.realpath(self.p(ln)) == os.path.realpath(p):
+                self.mutated.add(self.p(ln))
         self.mut_count += 1
         if before is not None and after is not None:
             if before == after:
@@ -395,11 +427,11 @@ class C13Machine(TraceMachine):
     def batch(self, n, pos, offset):
         """n distinct paths: live slots (existing or not) at drawn positions among padding."""
         if n <= 8:
-            cand = [self.p(s) for s in SLOTS] + [self.p(s) for s in NEVER]
+            cand = [self.p(s) for s in SLOTS + EXTRA + NEVER]
             r = offset % len(cand)
             return (cand[r:] + cand[:r])[:n]
         self.ensure_padding()
-        live = [self.p(s) for s in SLOTS][: len(pos)]
+        live = [self.p(s) for s in ["lnk-in", "a", "b", "sub/lnk-out", "sub/c"]][: len(pos)]
         out = [None] * n
         for p, q in zip(live, pos):
             q %= n
@@ -458,11 +490,17 @@ class C13Machine(TraceMachine):
         self.check("hash_file", p, hi, name)
         self.labels.add(f"q:hash_file:{name}" + ("+info" if given else ""))
 
-    def r_get_hashes(self, paths, name, n_label=None):
+    def r_get_hashes(self, paths, name, n_label=None, walk=False):
         from dvc_data.hashfile.build import _get_hashes
 
         paths = [p for p in paths if os.path.isfile(p)]
-        infos = {p: self.fs.info(p) for p in paths}
+        if walk:  # what the library's own directory walk supplies to this function
+            from dvc_data.fsutils import _localfs_info
+
+            infos = {p: _localfs_info(p) for p in paths}
+            self.labels.add("q:_get_hashes:walk-time-infos")
+        else:
+            infos = {p: self.fs.info(p) for p in paths}
         self.cnt["queries"] += 1
         res = _get_hashes(list(paths), self.fs, name, infos, state=self.state)
         nhit = len(self.take_hits(name))
@@ -482,6 +520,23 @@ class C13Machine(TraceMachine):
         self.take_hits(name)
         self.check("build(file)", p, obj.hash_info, name)
         self.labels.add(f"q:build(file):{name}")
+
+    def r_build_dir(self, name, kind):
+        from dvc_data.hashfile.build import build
+
+        odb = ops.make_odb(kind, os.path.join(self.dir, f"odb-{kind}-{name}"), state=self.state,
+                           hash_name=name)
+        self.cnt["queries"] += 1
+        _staging, _meta, obj = build(odb, self.ws, self.fs, name)
+        self.take_hits(name)
+        listed = set()
+        for key, _m, hi in obj:
+            listed.add(os.path.join(self.ws, *key))
+            self.check("build(dir)", os.path.join(self.ws, *key), hi, name)
+        if listed != set(self.live_files()):
+            self.violate("listing:build(dir)", "staged tree does not list exactly the files "
+                         f"on disk: {sorted(listed ^ set(self.live_files()))}")
+        self.labels.add(f"q:build(dir):{name}")
 
     def r_build_entries(self, name):
         from dvc_data.index.build import build_entries
@@ -549,6 +604,10 @@ class C13Machine(TraceMachine):
             self.r_hash_file(p, name, probe.endswith("+info"))
         elif probe == "get_hashes":
             self.r_get_hashes(self.live_files(), name)
+        elif probe == "get_hashes+walk":
+            self.r_get_hashes(self.live_files(), name, walk=True)
+        elif probe == "build_dir":
+            self.r_build_dir(name, "local")
         elif probe == "build_file":
             self.r_build_file(p, name, "local")
         elif probe == "build_entries":
@@ -647,10 +706,10 @@ class C13Machine(TraceMachine):
         self.labels.add("mut:chmod")
 
     # ---- query rules ---------------------------------------------------------------------------
-    @rule(slot=slot_s, given=st.booleans())
+    @rule(slot=qslot_s, given=st.booleans())
     @traced
     def q_get(self, slot, given):
-        self.r_get(self.p(SLOTS[slot % len(SLOTS)]), given)
+        self.r_get(self.qpath(slot) if slot >= 20 else self.p(SLOTS[slot % len(SLOTS)]), given)
 
     @rule(n=size_s, pos=pos_s, offset=st.integers(0, N_PAD - 1),
           infos=st.sampled_from(["none", "all", "all", "live"]))
@@ -666,45 +725,32 @@ class C13Machine(TraceMachine):
         if n >= 998 and nhit >= 900:
             self.labels.add("big-batch-mostly-hits")
 
-    @rule(slot=slot_s, algo=algo_s, given=st.booleans())
+    @rule(slot=qslot_s, algo=algo_s, given=st.booleans())
     @traced
     def q_hash_file(self, slot, algo, given):
-        p = self.existing(slot)
+        p = self.qpath(slot)
         if p is None:
             return
         self.r_hash_file(p, ALGOS[algo], given)
 
-    @rule(what=st.sampled_from(["file", "dir", "dir"]), slot=slot_s, algo=algo_s,
+    @rule(what=st.sampled_from(["file", "dir", "dir"]), slot=qslot_s, algo=algo_s,
           kind=st.sampled_from(ops.STORE_KINDS))
     @traced
     def q_build(self, what, slot, algo, kind):
-        from dvc_data.hashfile.build import build
-
-        p = self.existing(slot)
+        p = self.qpath(slot)
         if p is None:
             return
         name = ALGOS[algo]
         if what == "file":
             self.r_build_file(p, name, kind)
-            return
-        odb = ops.make_odb(kind, os.path.join(self.dir, f"odb-{kind}-{name}"), state=self.state,
-                           hash_name=name)
-        self.cnt["queries"] += 1
-        _staging, _meta, obj = build(odb, self.ws, self.fs, name)
-        self.take_hits(name)
-        listed = set()
-        for key, _m, hi in obj:
-            listed.add(os.path.join(self.ws, *key))
-            self.check("build(dir)", os.path.join(self.ws, *key), hi, name)
-        if listed != set(self.live_files()):
-            self.violate("listing:build(dir)", "staged tree does not list exactly the files "
-                         f"on disk: {sorted(listed ^ set(self.live_files()))}")
-        self.labels.add(f"q:build(dir):{name}")
+        else:
+            self.r_build_dir(name, kind)
 
-    @rule(n=size_s, pos=pos_s, offset=st.integers(0, N_PAD - 1), algo=st.sampled_from([0, 0, 0, 1, 2]))
+    @rule(n=size_s, pos=pos_s, offset=st.integers(0, N_PAD - 1), algo=st.sampled_from([0, 0, 0, 1, 2]),
+          walk=st.booleans())
     @traced
-    def q_get_hashes(self, n, pos, offset, algo):
-        self.r_get_hashes(self.batch(n, pos, offset), ALGOS[algo], n)
+    def q_get_hashes(self, n, pos, offset, algo, walk=False):
+        self.r_get_hashes(self.batch(n, pos, offset), ALGOS[algo], n, walk=walk)
 
     @rule(algo=algo_s)
     @traced
@@ -791,7 +837,7 @@ class C13Machine(TraceMachine):
                                     content_changed=False)
 
         def action(victim):
-            if how == "write_in_place":
+            if how == "write_in_place" or os.path.islink(victim):
                 self.do_write_in_place(victim, content, clock)
             else:
                 self.do_atomic_replace(victim, content, clock)
@@ -816,8 +862,10 @@ class C13Machine(TraceMachine):
         self.take_hits(name)
         route_name = {"get_hashes": "_get_hashes", "build_dir": "build(dir)",
                       "build_entries": "build_entries"}[route]
+        changed = os.path.realpath(wfs.victim) if wfs.victim else None
         for q in sorted(got):
-            if q != wfs.victim:
+            # not judged for the file that changed mid-call - under any name (a symlink to it too)
+            if os.path.realpath(q) != changed:
                 self.check(route_name, q, got[q], name)
         self.labels.add(f"q:{route_name}:{name}")
         if wfs.victim is None:
@@ -900,6 +948,61 @@ class C13Machine(TraceMachine):
                     f.write((b"%d:0123456789abcdefg\n" % i) * (56_000 + 3000 * i))
             self.labels.add("big-files-created")
         return [os.path.join(d, nm) for nm in ["big-a", "big-b", "big-c"]]
+
+    # ---- symlinked entries: the bytes (and the token) are those of the link's target -----------
+    @rule(link=st.integers(0, 1), how=st.sampled_from(["in_place", "in_place", "replace"]),
+          content=st.one_of(st.just("same-size"), st.just("same-size"), content_s), clock=clock_s,
+          prime=st.sampled_from([None, 0, 0, 1, 2, "dir", "dir", "entries"]),
+          probe=st.sampled_from([None, "build_dir", "build_dir", "get_hashes+walk", "get_hashes",
+                                 "build_entries", "index", "get", "many+infos", "hash_file",
+                                 "build_file"]),
+          algo=algo_s)
+    @traced
+    def link_target_write(self, link, how, content, clock, prime, probe, algo):
+        """Rewrite the TARGET of a symlinked entry (in place or by atomic replace); the harness clock
+        steps the target, i.e. the file whose bytes are hashed."""
+        lp = self.p(LINKS[link % len(LINKS)])
+        target = os.path.realpath(lp)
+        name = ALGOS[algo]
+        if prime in ("dir", "entries"):  # an earlier batch run of the tool recorded the entry
+            (self.r_build_dir if prime == "dir" else self.r_build_entries)(
+                *((name, "local") if prime == "dir" else (name,)))
+        else:
+            self.prime(lp, prime)
+        if content == "same-size":
+            cur = ref.read(target)
+            content = "h:" + bytes((b + 1) % 256 for b in cur).hex()
+            self.labels.add("link:target-rewritten-same-size")
+        if how == "in_place":
+            self.do_write_in_place(target, content, clock)
+        else:
+            self.do_atomic_replace(target, content, clock)
+        self.labels.add("mut:link_target_write:" + ("inside" if target.startswith(self.ws + os.sep)
+                                                    else "outside"))
+        self.probe(lp, probe, algo)
+
+    @rule(link=st.integers(0, 1), to=st.integers(0, 2), relative=st.booleans(),
+          probe=st.sampled_from([None, "build_dir", "get_hashes+walk", "build_entries", "index", "get",
+                                 "many", "hash_file+info"]),
+          algo=algo_s)
+    @traced
+    def link_retarget(self, link, to, relative, probe, algo):
+        """Point the symlink at another regular file (another inode: the premise holds)."""
+        lp = self.p(LINKS[link % len(LINKS)])
+        new = self.target_path(sorted(TARGETS)[to % len(TARGETS)])
+        old_real = os.path.realpath(lp)
+        if os.path.realpath(new) == old_real:
+            return
+        dest = os.path.relpath(new, os.path.dirname(lp)) if relative else new
+        tmp = lp + ".lnk~"
+        os.symlink(dest, tmp)
+        os.replace(tmp, lp)
+        if os.path.realpath(lp) != os.path.realpath(new) or os.stat(lp).st_ino == os.stat(old_real).st_ino:
+            raise HarnessError("retarget did not change the file behind the link")
+        self.mutated.add(lp)
+        self.mut_count += 1
+        self.labels.add("mut:link_retarget:" + ("relative" if relative else "absolute"))
+        self.probe(lp, probe, algo)
 
     @rule(slot=slot_s, kind=st.sampled_from(["newer", "newer", "legacy"]), bump=st.sampled_from([1, 1, 2, 7]))
     @traced
